@@ -13,7 +13,7 @@ use std::collections::BTreeSet;
 macro_rules! harness {
     ($name:ident, $body:expr) => {
         #[kani::proof]
-        #[kani::unwind(100)]
+        #[kani::unwind(5)]
         #[kani::stub(std::ptr::drop_in_place, noop_drop)]
         fn $name() {
             $body
@@ -323,7 +323,7 @@ harness!(c11_paths, split2(2, 4, |k, pk| docs(k, |d| {
 //@ desc: vacuity twin: the text and JSONB forms claimed to have different array lengths — must be refuted
 //@ fns: array_length
 #[kani::proof]
-#[kani::unwind(100)]
+#[kani::unwind(5)]
 #[kani::stub(std::ptr::drop_in_place, noop_drop)]
 fn c11_twin_must_fail() {
     let d = B::build(&arr(&[leaf(K_NUM, 2), leaf(K_STR, 1)]));
